@@ -9,7 +9,8 @@ REVIEWED_LOOPS = {}
 
 
 def R(h, cls, why, count=1, requires=(), props=("C05", "C19")):
-    REVIEWED[h] = {"class": cls, "why": why, "count": count, "requires": tuple(requires), "props": tuple(props)}
+    # several entries may exist for one shape when the reason differs per property (C05: "configuration only"; C19: the validation rule)
+    REVIEWED.setdefault(h, []).append({"class": cls, "why": why, "count": count, "requires": tuple(requires), "props": tuple(props)})
 
 
 class SideConditions:
